@@ -158,6 +158,25 @@ def make_pair(rng):
     clash = {n: n + "_R2" for n in rtypes if n in ltypes and ltypes[n] != rtypes[n]}
     if clash:
         right = ref_rename(right, modifiers=clash)
+    # measurement-level settings (inits, bounds) for a random half of the scalar parameters, drawn separately for every
+    # measurement of either side, so that the measurements of one workspace differ and a same-named measurement carries
+    # different parameter lists on the two sides
+    for ws in (left, right):
+        kinds = {}
+        for c in ws["channels"]:
+            for s in c["samples"]:
+                for m in s["modifiers"]:
+                    if m["type"] in ("normsys", "histosys", "normfactor") and m["name"] != "mu":
+                        kinds.setdefault(m["name"], set()).add("alpha" if m["type"] != "normfactor" else "norm")
+        for mm in ws["measurements"]:
+            have = {p["name"] for p in mm["config"]["parameters"]}
+            for n, k in sorted(kinds.items()):
+                if n in have or len(k) != 1 or rng.random() < 0.5:
+                    continue
+                if k == {"alpha"}:
+                    mm["config"]["parameters"].append({"name": n, "inits": [gen._round(rng.uniform(-0.8, 0.8), 3)], "bounds": [[gen._round(rng.uniform(-7, -3), 2), gen._round(rng.uniform(3, 7), 2)]]})
+                else:
+                    mm["config"]["parameters"].append({"name": n, "inits": [gen._round(rng.uniform(0.3, 2.0), 3)], "bounds": [[gen._round(rng.uniform(0.0, 0.2), 2), gen._round(rng.uniform(4, 12), 2)]]})
     # identical parameter configs for common names in common measurements
     lpars = {m["name"]: {p["name"]: p for p in m["config"]["parameters"]} for m in left["measurements"]}
     for m in right["measurements"]:
